@@ -1,6 +1,479 @@
-//! `vh coords`: see /verif/docs/MODULE_CONTRACT.md
+//! `vh coords`: C08 replay driver. See /verif/docs/C08.md and /verif/spec/Coords.tla.
+//!
+//! One JSON request per stdin line, one JSON result per stdout line. A request is an axis definition
+//! (the way a .designspace states it) plus user coordinates to evaluate. Two routes through the real code:
+//!
+//! * `api`: the public fontdrasil API (`CoordConverter::new` / `unmapped` / `default_normalization`,
+//!   `Coord::to_design` / `to_normalized` / `to_user`, `CoordConverter::iter`);
+//! * `font`: a full compile (`fontc::generate_font`) of a tiny designspace with that axis (or of a repository
+//!   fixture), then fvar + avar are read back with read-fonts and evaluated by the independent
+//!   implementation in this file (`fvar_normalize_units`, `avar_eval`): integer arithmetic on the raw
+//!   Fixed / F2Dot14 values, nothing from fontc or fontdrasil.
+//!
+//! Nothing is compared here; the expected values come from TLC and the comparison is in checks/c08.py.
 
-pub fn run(_args: &[String]) -> i32 {
-    eprintln!("vh coords: not implemented yet");
-    2
+use std::{
+    fmt::Write as _,
+    io::{BufRead, Write},
+    path::{Path, PathBuf},
+};
+
+use fontdrasil::coords::{CoordConverter, DesignCoord, UserCoord};
+use serde::Deserialize;
+use serde_json::{Value, json};
+use write_fonts::read::{FontRef, TableProvider};
+
+use crate::compile::{CompileReq, compile, panic_message};
+
+#[derive(Debug, Default, Clone, Deserialize)]
+#[serde(default)]
+struct Req {
+    id: Value,
+    mapped: bool,
+    amin: f64,
+    adef: f64,
+    amax: f64,
+    /// (user, design) in source order
+    map: Vec<(f64, f64)>,
+    grid: Vec<f64>,
+    /// design coordinates of named instances
+    inst: Vec<f64>,
+    /// call the fontdrasil API
+    api: bool,
+    /// do the full compile
+    compile: bool,
+    /// scratch directory for generated sources
+    dir: String,
+    /// compile this existing source instead of a generated one
+    src: String,
+    /// axis to project from the font (fixtures); generated sources use "wght"
+    tag: String,
+    /// rayon threads for the compile (0 = rayon default)
+    threads: usize,
+    /// only report the axes of a .glyphs source as glyphs-reader parses them (no compile)
+    glyphs_axes: bool,
+    /// keep the generated designspace under this name instead of overwriting case.designspace
+    keep: String,
+}
+
+fn fmt_num(v: f64) -> String {
+    // shortest round-trip decimal; our values are dyadic so this is exact
+    format!("{v}")
+}
+
+// ------------------------------------------------------------------------------------------ api
+
+fn api_route(req: &Req) -> Value {
+    let min = UserCoord::new(req.amin);
+    let def = UserCoord::new(req.adef);
+    let max = UserCoord::new(req.amax);
+    let conv = if req.mapped {
+        // the source states the default by value; its index is its position in the list as given
+        let Some(default_idx) = req.map.iter().position(|(u, _)| *u == req.adef) else {
+            return json!({"outcome": "skipped", "message": "default is not a map input"});
+        };
+        let mappings = req
+            .map
+            .iter()
+            .map(|(u, d)| (UserCoord::new(*u), DesignCoord::new(*d)))
+            .collect();
+        match CoordConverter::new(mappings, default_idx) {
+            Ok(c) => c,
+            Err(e) => return json!({"outcome": "error", "message": e.to_string()}),
+        }
+    } else {
+        CoordConverter::unmapped(min, def, max)
+    };
+    let dconv = CoordConverter::default_normalization(min, def, max);
+    let nodes: Vec<_> = conv
+        .iter()
+        .map(|(u, d, n)| json!([u.to_f64(), d.to_f64(), n.to_f64()]))
+        .collect();
+    let mut design = Vec::new();
+    let mut norm = Vec::new();
+    let mut dnorm = Vec::new();
+    let mut back = Vec::new();
+    for u in &req.grid {
+        let uc = UserCoord::new(*u);
+        let d = uc.to_design(&conv);
+        design.push(d.to_f64());
+        norm.push(uc.to_normalized(&conv).to_f64());
+        dnorm.push(uc.to_normalized(&dconv).to_f64());
+        // normalized -> design: must give back a design coordinate with the same normalized value
+        back.push(d.to_normalized(&conv).to_design(&conv).to_f64());
+    }
+    let inst_user: Vec<f64> = req
+        .inst
+        .iter()
+        .map(|d| DesignCoord::new(*d).to_user(&conv).to_f64())
+        .collect();
+    json!({"outcome": "ok", "len": conv.len(), "nodes": nodes, "design": design, "norm": norm, "dnorm": dnorm,
+           "norm_to_design": back, "inst_user": inst_user})
+}
+
+// ------------------------------------------------------------------------------------------ sources
+
+fn write_file(path: &Path, text: &str) -> Result<(), String> {
+    if let Some(p) = path.parent() {
+        std::fs::create_dir_all(p).map_err(|e| format!("{p:?}: {e}"))?;
+    }
+    std::fs::write(path, text).map_err(|e| format!("{path:?}: {e}"))
+}
+
+const PLIST_HEAD: &str = "<?xml version='1.0' encoding='UTF-8'?>\n<!DOCTYPE plist PUBLIC \"-//Apple//DTD PLIST 1.0//EN\" \"http://www.apple.com/DTDs/PropertyList-1.0.dtd\">\n<plist version=\"1.0\">\n";
+
+/// A one-glyph UFO (structure copied from resources/testdata/WghtVar-Regular.ufo); `w` varies per master.
+fn write_ufo(dir: &Path, style: &str, w: i32) -> Result<(), String> {
+    write_file(
+        &dir.join("metainfo.plist"),
+        &format!("{PLIST_HEAD}<dict><key>creator</key><string>verif.c08</string><key>formatVersion</key><integer>3</integer></dict></plist>\n"),
+    )?;
+    write_file(
+        &dir.join("layercontents.plist"),
+        &format!("{PLIST_HEAD}<array><array><string>public.default</string><string>glyphs</string></array></array></plist>\n"),
+    )?;
+    write_file(
+        &dir.join("fontinfo.plist"),
+        &format!("{PLIST_HEAD}<dict><key>unitsPerEm</key><integer>1000</integer><key>ascender</key><real>800</real><key>descender</key><real>-200</real><key>familyName</key><string>C08</string><key>styleName</key><string>{style}</string></dict></plist>\n"),
+    )?;
+    write_file(
+        &dir.join("lib.plist"),
+        &format!("{PLIST_HEAD}<dict><key>public.glyphOrder</key><array><string>bar</string></array></dict></plist>\n"),
+    )?;
+    write_file(
+        &dir.join("glyphs/contents.plist"),
+        &format!("{PLIST_HEAD}<dict><key>bar</key><string>bar.glif</string></dict></plist>\n"),
+    )?;
+    let x1 = 100 + w;
+    write_file(
+        &dir.join("glyphs/bar.glif"),
+        &format!(
+            "<?xml version='1.0' encoding='UTF-8'?>\n<glyph name=\"bar\" format=\"2\">\n<advance width=\"{}\"/>\n<unicode hex=\"007C\"/>\n<outline><contour>\n<point x=\"100\" y=\"0\" type=\"line\"/><point x=\"{x1}\" y=\"0\" type=\"line\"/><point x=\"{x1}\" y=\"700\" type=\"line\"/><point x=\"100\" y=\"700\" type=\"line\"/>\n</contour></outline>\n</glyph>\n",
+            200 + w
+        ),
+    )
+}
+
+/// Write the designspace for `req` (masters at the design default and at each design extreme that
+/// differs from it) and return its path.
+fn write_designspace(req: &Req, dir: &Path) -> Result<PathBuf, String> {
+    for (name, style, w) in [("lo.ufo", "Lo", 40), ("def.ufo", "Def", 100), ("hi.ufo", "Hi", 220)] {
+        let u = dir.join(name);
+        if !u.join("glyphs/bar.glif").exists() {
+            write_ufo(&u, style, w)?;
+        }
+    }
+    // where the masters sit, in design coordinates
+    let (dmin, ddef, dmax) = if req.mapped {
+        let ddef = req
+            .map
+            .iter()
+            .find(|(u, _)| *u == req.adef)
+            .map(|(_, d)| *d)
+            .ok_or("default is not a map input")?;
+        let dmin = req.map.iter().map(|(_, d)| *d).fold(f64::INFINITY, f64::min);
+        let dmax = req.map.iter().map(|(_, d)| *d).fold(f64::NEG_INFINITY, f64::max);
+        (dmin, ddef, dmax)
+    } else {
+        (req.amin, req.adef, req.amax)
+    };
+    let mut s = String::new();
+    s.push_str("<?xml version='1.0' encoding='UTF-8'?>\n<designspace format=\"4.1\">\n  <axes>\n");
+    let _ = write!(
+        s,
+        "    <axis tag=\"wght\" name=\"Weight\" minimum=\"{}\" maximum=\"{}\" default=\"{}\"",
+        fmt_num(req.amin),
+        fmt_num(req.amax),
+        fmt_num(req.adef)
+    );
+    if req.mapped {
+        s.push_str(">\n");
+        for (u, d) in &req.map {
+            let _ = writeln!(s, "      <map input=\"{}\" output=\"{}\"/>", fmt_num(*u), fmt_num(*d));
+        }
+        s.push_str("    </axis>\n");
+    } else {
+        s.push_str("/>\n");
+    }
+    s.push_str("  </axes>\n  <sources>\n");
+    let mut source = |file: &str, style: &str, at: f64| {
+        let _ = writeln!(
+            s,
+            "    <source filename=\"{file}\" name=\"C08 {style}\" familyname=\"C08\" stylename=\"{style}\"><location><dimension name=\"Weight\" xvalue=\"{}\"/></location></source>",
+            fmt_num(at)
+        );
+    };
+    source("def.ufo", "Def", ddef);
+    if dmin < ddef {
+        source("lo.ufo", "Lo", dmin);
+    }
+    if dmax > ddef {
+        source("hi.ufo", "Hi", dmax);
+    }
+    s.push_str("  </sources>\n  <instances>\n");
+    for (i, d) in req.inst.iter().enumerate() {
+        let _ = writeln!(
+            s,
+            "    <instance name=\"C08 I{i}\" familyname=\"C08\" stylename=\"I{i}\"><location><dimension name=\"Weight\" xvalue=\"{}\"/></location></instance>",
+            fmt_num(*d)
+        );
+    }
+    s.push_str("  </instances>\n</designspace>\n");
+    let name = if req.keep.is_empty() { "case.designspace" } else { req.keep.as_str() };
+    let path = dir.join(name);
+    write_file(&path, &s)?;
+    Ok(path)
+}
+
+// ------------------------------------------------------------------------------------------ independent evaluation
+
+/// round(num / den) to the nearest integer, ties away from zero; den > 0
+fn div_round(num: i128, den: i128) -> i128 {
+    if num >= 0 {
+        (2 * num + den) / (2 * den)
+    } else {
+        -((2 * -num + den) / (2 * den))
+    }
+}
+
+/// OpenType default normalisation of a user coordinate (Fixed 16.16 raw values), clamped to [min, max];
+/// the result is rounded to F2Dot14 units (what goes into avar).
+fn fvar_normalize_units(min: i64, def: i64, max: i64, u: i64) -> i64 {
+    let u = u.clamp(min.min(max), max.max(min));
+    if u < def && def > min {
+        -(div_round(((def - u) as i128) * 16384, (def - min) as i128) as i64)
+    } else if u > def && max > def {
+        div_round(((u - def) as i128) * 16384, (max - def) as i128) as i64
+    } else {
+        0
+    }
+}
+
+/// The avar segment-map rule on F2Dot14 units: a coordinate that is a node maps to the node's value (first
+/// one if the key repeats); otherwise linear between the neighbouring nodes. Exact rational (num, den) in
+/// units. Outside the nodes (a malformed map) the coordinate is returned unchanged, `covered` = false.
+fn avar_eval(seg: &[(i64, i64)], x: i64) -> (i128, i128, bool) {
+    if seg.is_empty() {
+        return (x as i128, 1, true);
+    }
+    if let Some((_, to)) = seg.iter().find(|(from, _)| *from == x) {
+        return (*to as i128, 1, true);
+    }
+    let mut left: Option<(i64, i64)> = None;
+    let mut right: Option<(i64, i64)> = None;
+    for (from, to) in seg {
+        if *from < x && left.map(|(f, _)| *from >= f).unwrap_or(true) {
+            left = Some((*from, *to));
+        }
+        if *from > x && right.map(|(f, _)| *from < f).unwrap_or(true) {
+            right = Some((*from, *to));
+        }
+    }
+    match (left, right) {
+        (Some((fl, tl)), Some((fr, tr))) => {
+            let den = (fr - fl) as i128;
+            let num = (tl as i128) * den + ((tr - tl) as i128) * ((x - fl) as i128);
+            (num, den, true)
+        }
+        _ => (x as i128, 1, false),
+    }
+}
+
+fn project_font(bytes: &[u8], tag: &str, grid: &[f64]) -> Result<Value, String> {
+    let font = FontRef::new(bytes).map_err(|e| format!("unreadable font: {e}"))?;
+    let Ok(fvar) = font.fvar() else {
+        return Ok(json!({"has_fvar": false}));
+    };
+    let axes = fvar.axes().map_err(|e| format!("fvar axes: {e}"))?;
+    let axis_tags: Vec<String> = axes.iter().map(|a| a.axis_tag().to_string()).collect();
+    let insts = fvar.instances().map_err(|e| format!("fvar instances: {e}"))?;
+    let mut inst_coords: Vec<Vec<i64>> = Vec::new();
+    for inst in insts.iter() {
+        let inst = inst.map_err(|e| format!("fvar instance: {e}"))?;
+        inst_coords.push(inst.coordinates.iter().map(|c| c.get().to_bits() as i64).collect());
+    }
+    let mut segs: Vec<Option<Vec<(i64, i64)>>> = vec![None; axes.len()];
+    let has_avar = font.avar().is_ok();
+    if let Ok(avar) = font.avar() {
+        for (i, m) in avar.axis_segment_maps().iter().enumerate() {
+            let m = m.map_err(|e| format!("avar segment map: {e}"))?;
+            if i < segs.len() {
+                segs[i] = Some(
+                    m.axis_value_maps()
+                        .iter()
+                        .map(|av| (av.from_coordinate().to_bits() as i64, av.to_coordinate().to_bits() as i64))
+                        .collect(),
+                );
+            }
+        }
+    }
+    let seg_json = |s: &Option<Vec<(i64, i64)>>| s.as_ref().map(|s| s.iter().map(|(a, b)| json!([a, b])).collect::<Vec<_>>());
+    let mut all_axes = Vec::new();
+    for (i, rec) in axes.iter().enumerate() {
+        let coords: Vec<Option<i64>> = inst_coords.iter().map(|c| c.get(i).copied()).collect();
+        all_axes.push(json!({
+            "index": i, "tag": axis_tags[i],
+            "fvar": [rec.min_value().to_bits() as i64, rec.default_value().to_bits() as i64, rec.max_value().to_bits() as i64],
+            "avar": seg_json(&segs[i]),
+            "instances": coords,
+        }));
+    }
+    let mut v = json!({"has_fvar": true, "has_avar": has_avar, "axis_tags": axis_tags, "all_axes": all_axes});
+    let Some(ai) = axis_tags.iter().position(|t| t == tag) else {
+        v["has_axis"] = json!(false);
+        return Ok(v);
+    };
+    let rec = &axes[ai];
+    let (fmin, fdef, fmax) = (
+        rec.min_value().to_bits() as i64,
+        rec.default_value().to_bits() as i64,
+        rec.max_value().to_bits() as i64,
+    );
+    let seg = &segs[ai];
+    let mut fnorm = Vec::new();
+    let mut out = Vec::new();
+    let mut covered = true;
+    for u in grid {
+        let uf = (u * 65536.0).round() as i64;
+        let x = fvar_normalize_units(fmin, fdef, fmax, uf);
+        fnorm.push(x);
+        let (n, d, c) = match seg {
+            Some(s) => avar_eval(s, x),
+            None => (x as i128, 1, true),
+        };
+        covered &= c;
+        out.push(json!([n as i64, d as i64]));
+    }
+    v["has_axis"] = json!(true);
+    v["axis_index"] = json!(ai);
+    v["fvar"] = json!([fmin, fdef, fmax]);
+    v["instances"] = json!(inst_coords.iter().filter_map(|c| c.get(ai).copied()).collect::<Vec<_>>());
+    v["avar"] = json!(seg_json(seg));
+    v["fnorm_units"] = json!(fnorm);
+    v["norm_units"] = json!(out);
+    v["covered"] = json!(covered);
+    Ok(v)
+}
+
+fn font_route(req: &Req) -> Value {
+    let (src, tag) = if req.src.is_empty() {
+        let dir = PathBuf::from(&req.dir).join(format!("p{}", std::process::id()));
+        match write_designspace(req, &dir) {
+            Ok(p) => (p.to_string_lossy().to_string(), "wght".to_string()),
+            Err(e) => return json!({"outcome": "harness-error", "message": e}),
+        }
+    } else {
+        (req.src.clone(), if req.tag.is_empty() { "wght".to_string() } else { req.tag.clone() })
+    };
+    let creq = CompileReq {
+        src: src.clone(),
+        threads: req.threads,
+        ..Default::default()
+    };
+    let (res, bytes) = compile(&creq);
+    let mut v = json!({"outcome": res.outcome, "message": res.message, "src": src, "wall_ms": res.wall_ms as u64});
+    if let Some(bytes) = bytes {
+        match project_font(&bytes, &tag, &req.grid) {
+            Ok(p) => {
+                for (k, val) in p.as_object().unwrap() {
+                    v[k] = val.clone();
+                }
+            }
+            Err(e) => {
+                v["outcome"] = json!("unreadable");
+                v["message"] = json!(e);
+            }
+        }
+    }
+    v
+}
+
+/// The axis statements of a .glyphs / .glyphspackage source, as parsed by glyphs-reader: per axis the
+/// user:design mapping in list order and every master's design coordinate, plus the default master.
+fn glyphs_axes(path: &str) -> Value {
+    let font = match glyphs_reader::Font::load(Path::new(path)) {
+        Ok(f) => f,
+        Err(e) => return json!({"outcome": "error", "message": e.to_string()}),
+    };
+    let axes: Vec<Value> = font
+        .axes
+        .iter()
+        .enumerate()
+        .map(|(i, a)| {
+            let map: Vec<Value> = font
+                .axis_mappings
+                .get(&a.name)
+                .map(|m| m.iter().map(|(u, d)| json!([u.into_inner(), d.into_inner()])).collect())
+                .unwrap_or_default();
+            // master positions, then the positions named by "Virtual Master" parameters (they extend the
+            // axis range the source states)
+            let masters: Vec<Option<f64>> = font
+                .masters
+                .iter()
+                .map(|m| m.axes_values.get(i).map(|v| v.into_inner()))
+                .chain(
+                    font.virtual_masters
+                        .iter()
+                        .filter_map(|vm| vm.get(&a.name).map(|v| Some(v.into_inner()))),
+                )
+                .collect();
+            json!({"name": a.name, "tag": a.tag, "map": map, "masters": masters})
+        })
+        .collect();
+    json!({"outcome": "ok", "axes": axes, "default_master": font.default_master_idx})
+}
+
+pub fn run(args: &[String]) -> i32 {
+    if std::env::var("VH_PANIC_VERBOSE").is_err() {
+        std::panic::set_hook(Box::new(|_| {}));
+    }
+    let reader: Box<dyn BufRead> = match args.first() {
+        Some(path) => match std::fs::File::open(path) {
+            Ok(f) => Box::new(std::io::BufReader::new(f)),
+            Err(e) => {
+                eprintln!("vh coords: {path}: {e}");
+                return 2;
+            }
+        },
+        None => Box::new(std::io::BufReader::new(std::io::stdin())),
+    };
+    let stdout = std::io::stdout();
+    for line in reader.lines() {
+        let Ok(line) = line else { break };
+        if line.trim().is_empty() {
+            continue;
+        }
+        let req: Req = match serde_json::from_str(&line) {
+            Ok(r) => r,
+            Err(e) => {
+                eprintln!("vh coords: bad request: {e}");
+                return 2;
+            }
+        };
+        let mut res = json!({"id": req.id});
+        if req.glyphs_axes {
+            let src = req.src.clone();
+            res["glyphs"] = match std::panic::catch_unwind(move || glyphs_axes(&src)) {
+                Ok(v) => v,
+                Err(p) => json!({"outcome": "panic", "message": panic_message(p)}),
+            };
+        }
+        if req.api {
+            res["api"] = match std::panic::catch_unwind(|| api_route(&req)) {
+                Ok(v) => v,
+                Err(p) => json!({"outcome": "panic", "message": panic_message(p)}),
+            };
+        }
+        if req.compile {
+            // compile() catches panics of the compiler itself
+            res["font"] = match std::panic::catch_unwind(|| font_route(&req)) {
+                Ok(v) => v,
+                Err(p) => json!({"outcome": "harness-panic", "message": panic_message(p)}),
+            };
+        }
+        let mut out = stdout.lock();
+        let _ = writeln!(out, "{res}");
+        let _ = out.flush();
+    }
+    0
 }
